@@ -25,29 +25,37 @@ SPEC = {
     'iqr': 'np.percentile(X, [75, 25], axis=0)[0] - np.percentile(X, [75, 25], axis=0)[1]',
     'rcv': '(np.percentile(X, [75, 25], axis=0)[0] - np.percentile(X, [75, 25], axis=0)[1]) / np.median(X, axis=0)',
 }
-PRELUDE = "if channels is None:\n    S = data\nelse:\n    S = data[:, channels]\n"
+PRELUDE = "S = data if channels is None else data[:, channels]\n"
 
 
 def prelude(cx, fn):
     """Find the slicing prelude; returns the name of the sliced-data variable."""
+    cand = [st for st in fn.ast.body if isinstance(st, ast.Assign) and isinstance(st.value, ast.IfExp)
+            and isinstance(st.targets[0], ast.Name)]
     ifs = [st for st in fn.ast.body if isinstance(st, ast.If)]
-    cx.need(ifs, '%s: no slicing prelude' % fn.qual)
-    st = ifs[0]
-    tgt = None
-    for a in ast.walk(st):
-        if isinstance(a, ast.Assign) and isinstance(a.targets[0], ast.Name):
-            tgt = a.targets[0].id
-            break
-    cx.need(tgt, '%s: prelude assigns nothing' % fn.qual)
+    if not cand:
+        # not in canonical conditional-expression form: report against the documented shape
+        st = ifs[0] if ifs else fn.ast
+        fn.ob('SIB', 'statistic is taken from the whole data when no channel is given, else from data[:, channels]', False, st,
+              detail='no `S = data if channels is None else data[:, channels]` prelude', key='prelude')
+        tgt = None
+        for a in ast.walk(st):
+            if isinstance(a, ast.Assign) and isinstance(a.targets[0], ast.Name):
+                tgt = a.targets[0].id
+                break
+        cx.need(tgt, '%s: no slicing prelude' % fn.qual)
+        return tgt, st
+    st = cand[0]
+    tgt = st.targets[0].id
     got = sym.norm_block([st], {tgt: ('var', '<S>')})
-    want = sym.norm_block(ast.parse(PRELUDE).body, {'S': ('var', '<S>')})
+    want = sym.norm_block(sym.parse_block(PRELUDE), {'S': ('var', '<S>')})
     ok = got == want and fn.params[:2] == ['data', 'channels'] and \
         isinstance(fn.default_of('channels'), ast.Constant) and fn.default_of('channels').value is None
     fn.ob('SIB', 'statistic is taken from the whole data when no channel is given, else from data[:, channels]', ok, st,
           detail='' if ok else 'prelude is `%s ...`' % norm_stmt(st), key='prelude')
     # nothing else defines the sliced variable
     defs = [n for n in fn.cfg.nodes if tgt in fn.rd.gen[n.id]]
-    fn.ob('SIB', 'sliced data are not redefined after the prelude', len(defs) == 2, st, key='prelude-unique')
+    fn.ob('SIB', 'sliced data are not redefined after the prelude', len(defs) == 1, st, key='prelude-unique')
     return tgt, st
 
 
@@ -152,6 +160,9 @@ def rank_of(fn, e, env):
 def rank_run(fn, stmts, env, rets, pre=None):
     for st in stmts:
         if isinstance(st, ast.Expr):
+            continue
+        if st is pre and isinstance(st, ast.Assign):
+            env[st.targets[0].id] = ('r', 0)          # the sliced data: symbolic rank rho
             continue
         if isinstance(st, ast.Assign) and len(st.targets) == 1:
             t = st.targets[0]
@@ -288,7 +299,8 @@ def run(cx):
 
 def prelude_name(cx, k):
     fn = Fn(cx, 'stats.' + k)
-    for a in ast.walk(fn.ast.body[1] if isinstance(fn.ast.body[0], ast.Expr) else fn.ast.body[0]):
-        if isinstance(a, ast.Assign) and isinstance(a.targets[0], ast.Name):
-            return a.targets[0].id
+    for st in fn.ast.body:
+        for a in ast.walk(st):
+            if isinstance(a, ast.Assign) and isinstance(a.targets[0], ast.Name):
+                return a.targets[0].id
     raise AnalysisError('stats.%s: prelude variable not found' % k)
